@@ -6,6 +6,7 @@ mod replay;
 mod scen;
 mod qosm;
 mod sim;
+mod timeconv;
 mod winst;
 
 use serde_json::{Value, json};
@@ -114,6 +115,10 @@ fn main() {
             let _ = json!(null);
         }
         // vh compat --cases <ndjson> --out <file>
+        "timeconv" => {
+            let rep = timeconv::run_cases(&arg(&args, "--cases").expect("--cases"), args.iter().any(|a| a == "--exhaustive"));
+            std::fs::write(arg(&args, "--out").expect("--out"), serde_json::to_string(&rep).unwrap()).unwrap();
+        }
         "compat" => {
             let rep = compat::run_cases(&arg(&args, "--cases").expect("--cases"));
             std::fs::write(arg(&args, "--out").expect("--out"), serde_json::to_string(&rep).unwrap()).unwrap();
